@@ -209,3 +209,36 @@ func vrResign(t *testing.T, creds *types.NodeCredentials, req *types.FetchNodeCr
 func rotationRoots(ctx context.Context, st nodeenrollment.Storage, opt ...nodeenrollment.Option) (*types.RootCertificates, error) {
 	return rotation.RotateRootCertificates(ctx, st, opt...)
 }
+
+// vrTokenUnderFaults: for every storage operation of a token fetch failing in
+// turn, one activation token must never enroll two different keys, and a
+// fetch that handed out credentials must have consumed the token.
+func vrTokenUnderFaults(t *testing.T) {
+	t.Helper()
+	ctx := context.Background()
+	for k := 1; k <= 12; k++ {
+		for fi, fault := range vrFaults {
+			st := vrNew(t)
+			if _, err := rotation.RotateRootCertificates(ctx, st); err != nil {
+				t.Fatal(err)
+			}
+			id, tok, err := registration.CreateServerLedActivationToken(ctx, st, &types.ServerLedRegistrationRequest{})
+			if err != nil {
+				t.Fatal(err)
+			}
+			credsA, reqA, keyA, _ := vrFreshNode(t, nodeenrollment.WithActivationToken(tok))
+			st.arm(k, fault, false)
+			respA, errA := registration.FetchNodeCredentials(ctx, st, reqA)
+			st.disarm()
+			if errA == nil && vrOpens(credsA, respA, nodeenrollment.WithActivationToken(tok)) && vrHasToken(st.mem, id) {
+				t.Errorf("operation %d fails (fault %d): credentials were handed out for a token that is still stored", k, fi)
+			}
+			_, reqB, keyB, _ := vrFreshNode(t, nodeenrollment.WithActivationToken(tok))
+			_, _ = registration.FetchNodeCredentials(ctx, st, reqB)
+			nodes := vrNodeIds(t, st.mem)
+			if nodes[keyA] != nil && nodes[keyB] != nil {
+				t.Errorf("operation %d fails (fault %d): one activation token enrolled two keys", k, fi)
+			}
+		}
+	}
+}
